@@ -1,6 +1,7 @@
 import StamModel.Lemmas.Limit
 import StamModel.Lemmas.Handles
 import StamModel.Lemmas.QueryIter
+import StamModel.Lemmas.QuerySem
 /-
   C08 — Query results equal the meaning of their constraints, however evaluated: the helper collections.
 
@@ -59,6 +60,42 @@ theorem intersection_fast_path_agrees (a b : List Nat) (ha : StrictSorted a) (hb
 /-- collections built by `from_iter` from duplicate-free handle lists satisfy the hypotheses -/
 theorem built_collections_are_truthful (l : List Nat) (hl : l.Nodup) : Truthful (fromIter l) :=
   fromIter_truthful l hl
+
+/-! ## data constraints of SELECT ANNOTATION: however evaluated -/
+open Stam Stam.C01 in
+/-- **C08 (first constraint vs. later constraint).** In every store reached by a history of operations, a data
+constraint (`DATA set key`, `DATA set key op value`, `VALUE op value`; `found` = the data items it matches) gives the
+same annotations, in the same order, whether it is evaluated index-driven as the first constraint
+(`find_data(..).annotations()`, through the reverse index) or as a filter on the annotations' own data. -/
+theorem data_constraint_first_or_later (ops : List StoreOp) (found : List (Nat × Nat)) :
+    (run ops).annsOfData found = (run ops).annsWithData found :=
+  annsOfData_eq_annsWithData _ (inv_run ops) found
+
+open Stam Stam.C01 in
+/-- **C08 (exactly the items that satisfy all constraints).** A conjunction of data constraints — the first one
+index-driven, the others filtering — yields exactly the live annotations that carry, for every constraint, a data
+item it matches. -/
+theorem data_conjunction_meaning (ops : List StoreOp) (first : List (Nat × Nat)) (others : List (List (Nat × Nat)))
+    (h : Nat) :
+    h ∈ (run ops).annsQuery first others ↔
+      ∀ f ∈ first :: others, ∃ a, getLive (run ops).anns h = some a ∧ ∃ p ∈ f, p ∈ a.data := by
+  rw [mem_annsQuery _ (inv_run ops)]
+  constructor
+  · intro hh f hf; exact (mem_annsWithData _ f h).1 (hh f hf)
+  · intro hh f hf; exact (mem_annsWithData _ f h).2 (hh f hf)
+
+open Stam Stam.C01 in
+/-- **C08 (the order of the constraints is irrelevant).** Written in any order (any of them first, hence
+index-driven), a conjunction of data constraints gives the same list of annotations. -/
+theorem data_conjunction_order_irrelevant (ops : List StoreOp) (c1 c2 : List (Nat × Nat))
+    (cs1 cs2 : List (List (Nat × Nat))) (hperm : ∀ f, f ∈ c1 :: cs1 ↔ f ∈ c2 :: cs2) :
+    (run ops).annsQuery c1 cs1 = (run ops).annsQuery c2 cs2 := by
+  apply strict_eq_of_mem_iff _ _ (annsQuery_strict _ _ _) (annsQuery_strict _ _ _)
+  intro h
+  rw [mem_annsQuery _ (inv_run ops), mem_annsQuery _ (inv_run ops)]
+  constructor
+  · intro hh f hf; exact hh f ((hperm f).2 hf)
+  · intro hh f hf; exact hh f ((hperm f).1 hf)
 
 /-! ## sub-queries -/
 open Stam.QI in
